@@ -22,7 +22,22 @@ RULE = ("GFA2 documents with 3-6 segments, 3-9 edges (parallel edges, loops, all
         "edges, paths and sets. Non-trivial: a group with an implicit element, a nested group or an error.")
 
 
+# hand-made documents that run first: two indistinguishable unnamed edges between adjacent segments (the step is
+# ambiguous), the same with a tag telling them apart, a named and an unnamed parallel edge, a loop listed at both ends
+_E = 'E\t%s\t%s\t%s\t0\t5\t2\t7\t*'
+FIXED = [
+    ['S\tA\t10\t*', 'S\tB\t10\t*', 'S\tC\t10\t*', _E % ('*', 'A+', 'B+'), _E % ('*', 'A+', 'B+'), _E % ('e1', 'B+', 'C+'),
+     'O\to1\tA+ B+ C+', 'O\to2\tB+ C+', 'O\to3\tB- A-', 'U\tu1\tA B'],
+    ['S\tA\t10\t*', 'S\tB\t10\t*', 'S\tC\t10\t*', _E % ('*', 'A+', 'B+') + '\txx:i:1', _E % ('*', 'A+', 'B+') + '\txx:i:2',
+     _E % ('e1', 'B+', 'C-'), 'O\to1\tA+ B+', 'O\to2\tC+ B- A-', 'U\tu1\to2 C'],
+    ['S\tA\t10\t*', 'S\tB\t10\t*', _E % ('e1', 'A+', 'B+'), _E % ('*', 'B-', 'A-'), _E % ('e2', 'A+', 'A+'), _E % ('*', 'B+', 'B-'),
+     'O\to1\tA+ B+', 'O\to2\tA+ e1+ B+', 'O\to3\tA+ A+ B+', 'O\to4\tA+ B+ B-', 'U\tu1\te1 e2'],
+]
+
+
 def gen_case(rng, i):
+    if i < len(FIXED):
+        return {'kind': 'groups', 'lines': list(FIXED[i]), 'notes': {'fixed': True, 'implicit': True, 'nested': False, 'mutated': False}}
     nseg = rng.randint(3, 6)
     segs = rng.sample(['A', 'B', 'C', 'D', 'E', 'F', 'G'], nseg)
     lines = ['S\t%s\t10\t*' % s for s in segs]
